@@ -29,3 +29,9 @@ run $B/F2_extract_function.diff C14 C12 C18
 run $B/B1_rename_local_mean.diff C04 C07
 run $B/B3_reorder_query_columns.diff C01 C02 C03
 run $B/B5_reorder_auto_check.diff C19 C13
+run $B/G1_reorder_bound_checks.diff C19 C13
+run $B/G2_rename_select.diff C15
+run $B/G3_rename_power_loop.diff C09 C08
+run $B/G4_rename_find_boundary.diff C09
+run $B/G5_rename_zero_div.diff C18 C14
+run $B/G7_rename_proportion.diff C11
